@@ -79,8 +79,17 @@ func (r *chainRun) exec(b *blockSpec, h uint64) {
 		r.f.fail("GetInterchainMeta(%d): %v", h, err)
 	}
 	cb := &chainBlock{height: h, spec: b, hash: blk.BlockHash.String(), root: blk.BlockHeader.StateRoot.String(), receipts: rs}
-	for _, v := range meta.Counter {
+	for chain, v := range meta.Counter {
 		cb.icCount += uint64(len(v.Slice))
+		// the interchain count counts deliveries of transactions that were executed in this block
+		for _, vi := range v.Slice {
+			if int(vi.Index) >= len(b.txs) {
+				r.f.fail("block %d (%d transactions): the stored delivery set for %s lists position %d", h, len(b.txs), chain, vi.Index)
+			}
+			if !rs[vi.Index].IsSuccess() {
+				r.f.fail("block %d: the stored delivery set for %s lists position %d, a transaction that failed", h, chain, vi.Index)
+			}
+		}
 	}
 	for _, s := range b.txs {
 		cb.txHashes = append(cb.txHashes, s.tx.GetHash().String())
